@@ -45,6 +45,8 @@ INPUTS["flow"] = ("PRINT\n -echo_input true\n -user_print true\nUSER_PRINT\n 10 
                   "TRANSPORT\n -cells 3\n -shifts 2\n -lengths 0.1\n -dispersivities 0.01\n -time_step 100\n -punch_cells 2-3\n -print_cells 1\n -punch_frequency 2\n -print_frequency 1\nEND\n")
 INPUTS["inverse"] = ("SOLUTION 1\n pH 7\n Na 1\n Cl 1\nSOLUTION 2\n pH 7\n Na 2\n Cl 2\nSELECTED_OUTPUT 2\n -reset false\n -inverse_modeling true\nEND\n"
                      "INVERSE_MODELING 1\n -solutions 1 2\n -phases\n  Halite\n -uncertainty 0.05\n -range\nPHASES\nHalite\n NaCl = Na+ + Cl-\n log_k 1.582\nEND\n")
+# warnings while the log stream is active (KNOBS -logfile true): warnings are copied to the log
+INPUTS["logwarn"] = "KNOBS\n -logfile true\n" + INPUTS["warn"] + "USE solution 1\nREACTION 1\n NaCl 1\n 1 mmol\nSAVE solution\nEND\n"
 # definitions and print switches that change between the simulations of one call
 INPUTS["redef"] = ("SOLUTION 1\n pH 7\n Na 1\n Cl 1\nSELECTED_OUTPUT 1\n -totals Na\nEND\n"
                    "SELECTED_OUTPUT 1\n -totals Cl\nUSE solution 1\nREACTION 1\n NaCl 1\n 1 mmol\nEND\n")
@@ -318,7 +320,7 @@ def cases(tier):
                 for cur in (1, 2):
                     for names in (0, 1):
                         out.append({"input": inp, "cfg": [1] * len(GLOBAL) + bits(p, 4), "names": names, "cur": cur})
-        for inp in ("flow", "inverse"):
+        for inp in ("flow", "inverse", "logwarn"):
             for g in range(2 ** len(GLOBAL)):
                 out.append({"input": inp, "cfg": bits(g, len(GLOBAL)) + [1, 1, 1, 1], "names": g & 1, "cur": 1 + (g & 1)})
         for inp in ("plain", "log", "redef", "printsw", "printdump"):
